@@ -21,9 +21,11 @@ LEVEL = ('decides the discipline around explanations, not their logic: propagato
          "cumulative handler's cached profile explanation is reset whenever the profile changes (L12)."
          ' Further: every tested bound of another variable that guards a propagation is stated in the '
          'reason (L15); the …_at_trail_position queries agree on the inclusive position convention '
-         '(L16); lazy reasons of reified propagators keep the literal (L17). Beyond these necessary '
-         'conditions: Logical sufficiency and truth of the stated facts — the heart of the property — '
-         'are NOT decided')
+         '(L16); lazy reasons of reified propagators keep the literal (L17). WITNESS-POINT of '
+         'pointwise explanations (L18 = H11); element explanations name the position they argue about '
+         '(L19); INCREMENTAL-RESET of un-trailed accumulators (L20); reasons assembled from parts are '
+         'their union (L21). Beyond these necessary conditions: Logical sufficiency and truth of the '
+         'stated facts — the heart of the property — are NOT decided')
 TECHNIQUE = "static analysis: who-may-call / taint with control dependence / dominance over rustc MIR"
 
 ASSIGN_MUTATORS = ("tighten_lower_bound", "tighten_upper_bound", "remove_value_from_domain",
